@@ -738,6 +738,144 @@ def _routine(e, env, case_test, case, depth=0):
     return None
 
 
+# ---- routines selected by a table lookup keyed by the interpolator's dtype -------------------------------------------------------------
+# A dictionary finds a key by HASH and then equality.  `np.dtype(complex) == complex` is True (numpy converts the right-hand side) but
+# hash(np.dtype(complex)) != hash(complex): a table keyed by the Python / numpy scalar TYPES is found by `dtype=complex` and missed by
+# `dtype=np.dtype(complex)` (or an array's `.dtype`), which the equality test `dtype == complex` of the reference accepts.  The objects are
+# therefore put in classes: ('py', letter) the builtin types, ('nps', letter) numpy scalar types, ('dt', letter) dtype instances; a lookup
+# hits iff class and letter agree (builtin `complex` and np.complex128 are different objects and compare unequal).
+_KEY_CLASS = {"complex": ("py", "z"), "float": ("py", "d"),
+              "np.complex128": ("nps", "z"), "numpy.complex128": ("nps", "z"), "np.cdouble": ("nps", "z"),
+              "np.float64": ("nps", "d"), "numpy.float64": ("nps", "d"), "np.double": ("nps", "d"),
+              "np.dtype(complex)": ("dt", "z"), "np.dtype('complex128')": ("dt", "z"), "np.dtype(np.complex128)": ("dt", "z"),
+              "numpy.dtype(complex)": ("dt", "z"),
+              "np.dtype(float)": ("dt", "d"), "np.dtype('float64')": ("dt", "d"), "np.dtype(np.float64)": ("dt", "d"),
+              "numpy.dtype(float)": ("dt", "d")}
+# the spellings of the interpolator's dtype the reference treats as complex / as real data (`dtype == complex`)
+_PASSED = {("py", "z"): "complex", ("dt", "z"): "np.dtype(complex)", ("py", "d"): "float", ("dt", "d"): "np.dtype(float)"}
+
+
+def _as_lookup(v, env, depth=0):
+    """the expression `T.get(K[, D])` / `T[K]` (K mentions the interpolator's dtype) a value denotes, through locals; None otherwise"""
+    if depth > 6 or isinstance(v, tuple):
+        return None
+    if isinstance(v, ast.Name) and v.id in env:
+        return _as_lookup(env[v.id], env, depth + 1)
+    if isinstance(v, ast.Call) and isinstance(v.func, ast.Attribute) and v.func.attr == "get" and 1 <= len(v.args) <= 2 and not v.keywords \
+            and _mentions_dtype(v.args[0]):
+        return v
+    if isinstance(v, ast.Subscript) and _mentions_dtype(v.slice):
+        return v
+    return None
+
+
+def _lookup_component(e, env, depth=0):
+    """-> (lookup expression, k) when the callable `e` is the k-th component of the value of a dtype-keyed table lookup"""
+    if depth > 6:
+        return None
+    if isinstance(e, tuple):
+        lk = _as_lookup(e[0], env)
+        return (lk, e[1]) if lk is not None else None
+    if isinstance(e, (ast.Name, ast.Attribute)) and src(e) in env:
+        return _lookup_component(env[src(e)], env, depth + 1)
+    if isinstance(e, ast.Subscript) and isinstance(e.slice, ast.Constant) and isinstance(e.slice.value, int) and not _mentions_dtype(e.slice):
+        lk = _as_lookup(e.value, env)
+        return (lk, e.slice.value) if lk is not None else None
+    return None
+
+
+def _table_literal(t, env, imod, depth=0):
+    """the dictionary display a table expression denotes (a display, a local, or a module-level name assigned once and never modified)"""
+    if depth > 4:
+        return None
+    if isinstance(t, ast.Dict):
+        return t if all(k is not None for k in t.keys) else None
+    if isinstance(t, ast.Call) and src(t.func) == "dict" and len(t.args) == 1 and not t.keywords:
+        return _table_literal(t.args[0], env, imod, depth + 1)
+    if not isinstance(t, ast.Name):
+        return None
+    if t.id in env:
+        return None if isinstance(env[t.id], tuple) else _table_literal(env[t.id], env, imod, depth + 1)
+    defs_ = [st for st in imod.tree.body if isinstance(st, ast.Assign) and any(isinstance(x, ast.Name) and x.id == t.id for x in st.targets)]
+    if len(defs_) != 1 or len(defs_[0].targets) != 1:
+        return None
+    for n in ast.walk(imod.tree):
+        # any other store to the name, store into it, or mutating method call: the table is not the display read here
+        if isinstance(n, ast.Name) and n.id == t.id and isinstance(n.ctx, (ast.Store, ast.Del)) and n is not defs_[0].targets[0]:
+            return None
+        if isinstance(n, ast.Subscript) and isinstance(n.ctx, (ast.Store, ast.Del)) and src(n.value) == t.id:
+            return None
+        if isinstance(n, ast.Call) and isinstance(n.func, ast.Attribute) and src(n.func.value) == t.id and \
+                n.func.attr in ("update", "pop", "popitem", "setdefault", "clear", "__setitem__", "__delitem__"):
+            return None
+    return _table_literal(defs_[0].value, env, imod, depth + 1)
+
+
+def _entry_routines(v, env, imod, depth=0):
+    """the (factorisation, solve) routine names a table value / default denotes: a 2-tuple of routines, or `T[<literal key>]`"""
+    if depth > 4 or v is None:
+        return None
+    if isinstance(v, ast.Name) and v.id in env and not isinstance(env[v.id], tuple):
+        return _entry_routines(env[v.id], env, imod, depth + 1)
+    if isinstance(v, (ast.Tuple, ast.List)) and len(v.elts) == 2:
+        rs = [_routine(el, env, None, None) for el in v.elts]
+        if all(r is not None and r[0] == "name" for r in rs):
+            return tuple(r[1] for r in rs)
+        return None
+    if isinstance(v, ast.Subscript) and src(v.slice) in _KEY_CLASS:
+        tab = _table_literal(v.value, env, imod)
+        if tab is None:
+            return None
+        hits = [val for k, val in zip(tab.keys, tab.values) if src(k) == src(v.slice)]
+        return _entry_routines(hits[-1], env, imod, depth + 1) if hits else None
+    return None
+
+
+def table_dispatch(lookup, env, imod):
+    """what a dtype-keyed lookup `T.get(K[, D])` / `T[K]` yields for each spelling of the interpolator's dtype the reference accepts.
+    -> {('py'|'dt', 'z'|'d'): (factorisation, solve) | 'raises' | None (not followed)}, text; or None when the lookup is not understood.
+    MODELLED: T a dictionary display whose keys are all spellings listed in _KEY_CLASS; K the dtype itself or np.dtype(dtype)."""
+    if isinstance(lookup, ast.Call):
+        t, k, has_default, default = lookup.func.value, lookup.args[0], len(lookup.args) == 2, (lookup.args[1] if len(lookup.args) == 2 else None)
+    else:
+        t, k, has_default, default = lookup.value, lookup.slice, False, None
+    tab = _table_literal(t, env, imod)
+    if tab is None or any(src(key) not in _KEY_CLASS for key in tab.keys):
+        return None
+    ks = src(k)
+    if ks == "dtype":
+        norm = (lambda c: c)
+    elif ks in ("np.dtype(dtype)", "numpy.dtype(dtype)"):
+        norm = (lambda c: ("dt", c[1]))
+    else:
+        return None
+    out = {}
+    for passed in _PASSED:
+        eff = norm(passed)
+        hits = [val for key, val in zip(tab.keys, tab.values) if _KEY_CLASS[src(key)] == eff]
+        if hits:
+            out[passed] = _entry_routines(hits[-1], env, imod)
+        elif isinstance(lookup, ast.Subscript):
+            out[passed] = "raises"
+        elif has_default:
+            out[passed] = _entry_routines(default, env, imod)
+        else:
+            out[passed] = None
+    return out, f"`{src(lookup)[:90]}` with `{src(t)[:30]}` = `{src(tab)[:90]}`"
+
+
+def _table_pair(fac_func, solve_expr, env, imod):
+    """factorisation and solve both come from ONE dtype-keyed table lookup (components 0 / 1 of its value) -> (outcomes, text, lookup)"""
+    a, b = _lookup_component(fac_func, env), _lookup_component(solve_expr, env)
+    if a is None or b is None or a[0] is not b[0] or a[1] not in (0, 1) or b[1] not in (0, 1):
+        return None
+    td = table_dispatch(a[0], env, imod)
+    if td is None:
+        return None
+    out = {k_: ((v[a[1]], v[b[1]]) if isinstance(v, tuple) else v) for k_, v in td[0].items()}
+    return out, td[1], a[0]
+
+
 _DTYPE_LETTER = {"complex": "z", "np.complex128": "z", "np.complex_": "z", "np.cdouble": "z", "numpy.complex128": "z", "'D'": "z",
                  "'complex128'": "z", "'complex'": "z", "np.dtype(complex)": "z", "np.dtype('complex128')": "z", "np.dtype(np.complex128)": "z",
                  "float": "d", "np.float64": "d", "np.float_": "d", "np.double": "d", "numpy.float64": "d", "'d'": "d", "'float64'": "d",
@@ -817,6 +955,36 @@ def _lapack_flavour(call, flat, case_test=None, case=None):
     return "fixed", f"`{src(call)[:90]}` is given neither arrays nor the interpolator's dtype: the double-precision real routines are returned"
 
 
+def _table_verdict(tp, fac_st):
+    """verdict of H2-factor-solve-pair when the pair is selected by a dtype-keyed table lookup -> (ok, bad, node)"""
+    out, text, lookup = tp
+    node = fac_st
+    Z, D = ("zgbtrf", "zgbtrs"), ("dgbtrf", "dgbtrs")
+    allowed = {(a, b) for a in (Z[0], D[0]) for b in (Z[1], D[1])}
+    # ASSUMPTION of every VIOLATED below: the outcome of the lookup for this spelling of the dtype was followed to two module-level LAPACK
+    # routines (table display read completely, never modified; default followed)
+    if any(v is None or (isinstance(v, tuple) and v not in allowed) for v in out.values()):
+        return None, None, node
+    for passed, v in out.items():
+        if isinstance(v, tuple) and v[0][0] != v[1][0]:
+            return False, (f"{text}: for dtype={_PASSED[passed]} the constructor takes {v}: factorisation and solve are not of one precision, "
+                           "so complex factors are solved by the real routine or the reverse"), node
+    if out[("py", "z")] == D and out[("dt", "z")] == D:
+        return False, (f"{text}: complex data take the real pair {D}: the real solve drops the imaginary part of complex data"), node
+    if out[("py", "z")] == Z and out[("dt", "z")] == D:
+        return False, (f"{text}: the routines are found by a dictionary lookup keyed by the dtype object itself; a dictionary finds a key by hash "
+                       "and equality, and although np.dtype(complex) == complex is True its hash is not hash(complex): dtype=complex finds "
+                       f"{Z}, but the same dtype given as a numpy dtype object (np.dtype(complex), an array's .dtype), which the equality test "
+                       f"`dtype == complex` accepts, misses the key and falls back to {D}: the real routines silently drop the imaginary part"), node
+    if out[("dt", "z")] == Z and out[("py", "z")] == D:
+        return False, (f"{text}: the table is keyed by numpy dtype objects and looked up with the dtype as given: dtype=complex (the builtin "
+                       f"type) misses the key and falls back to {D}: the real routines drop the imaginary part of complex data"), node
+    fargs_ok = len(fac_st.value.args) >= 3 and [src(a) for a in fac_st.value.args[1:3]] == ["self._l", "self._u"]
+    if out[("py", "z")] == Z and out[("dt", "z")] == Z and out[("py", "d")] == D and out[("dt", "d")] == D and fargs_ok:
+        return True, None, node
+    return None, None, node         # a spelling raises KeyError, or real data take the complex pair (wasteful, not wrong)
+
+
 def routine_pair(imod, body, init):
     """which factorisation produces the factors and which solve routine is kept, for complex and for real data -> (ok, bad, node)"""
     flat0 = _flat(body)
@@ -854,6 +1022,10 @@ def routine_pair(imod, body, init):
                 return None, None, node
             return None, None, fac_st or node
         node = fac_st
+        if case_src is None:
+            tp = _table_pair(fac_st.value.func, env["self._solveFunc"], env, imod)
+            if tp is not None:
+                return _table_verdict(tp, fac_st)
         cases[case] = (_routine(fac_st.value.func, env, case_src, case), _routine(env["self._solveFunc"], env, case_src, case), fac_st, flat)
     if any(f is None or s_ is None for f, s_, _st, _fl in cases.values()):
         return None, None, node
@@ -1019,6 +1191,14 @@ def factor_solve_pair(chk, imod):
            f"value also depends on {shared[0][2]}: an interpolator built later with the same {'/'.join(shared[0][3])} and another "
            f"{'/'.join(shared[0][2])} receives the first one's factors and solve routine (e.g. the real LAPACK solve for complex data, which "
            "drops the imaginary part)", file=U.INTERP, func=init_q)
+    # ---- state of the interpolator kept in a class-level container / mutable default filled in place by the constructor
+    from .C07 import state_shared_between_instances
+    for verdict, node_, text in state_shared_between_instances(
+            imod, C1, ("compute_interpolant", "_solve_system_nonperiodic", "_solve_system_periodic"),
+            "an interpolator built earlier solves with the factors / routine / sizes of the one built last: its coefficients do not "
+            "interpolate the data"):
+        chk.ob("H2-factor-solve-pair", node_, "state used by the solves is this interpolator's own (not a container shared by all instances)",
+               verdict, text, file=U.INTERP, func=init_q)
     # ---- band storage
     band_storage(chk, imod, body, init, init_q)
     # ---- periodic: sparse LU of the collocation matrix
@@ -1114,7 +1294,9 @@ def band_storage(chk, imod, body, init, init_q):
         cs_ = [(next(iter(tests_)), True), (next(iter(tests_)), False)] if len(tests_) == 1 else [(None, None)]
         rs_ = [_routine(fac.value.func, env_, ct, case) for ct, case in cs_]
         if not all(r is not None and str(r[1]).endswith("gbtrf") for r in rs_):
-            band = None
+            tp_ = _table_pair(fac.value.func, env_.get("self._solveFunc"), env_, imod) if "self._solveFunc" in env_ else None
+            if tp_ is None or not all(isinstance(v, tuple) and str(v[0]).endswith("gbtrf") for v in tp_[0].values() if v != "raises"):
+                band = None
     if band is None or alloc is None or idx is None:
         chk.pat("H2-band-storage", node, "LAPACK band storage", False, "", None, file=U.INTERP, func=init_q)
         return
@@ -1220,6 +1402,11 @@ def _solve_is_gbtrs(imod):
     cases = [(next(iter(tests)), True), (next(iter(tests)), False)] if len(tests) == 1 else [(None, None)]
     for ct, case in cases:
         r = _routine(env["self._solveFunc"], env, ct, case)
+        if r is None and ct is None:
+            lc = _lookup_component(env["self._solveFunc"], env)
+            td = table_dispatch(lc[0], env, imod) if lc is not None else None
+            return td is not None and lc[1] in (0, 1) and all(
+                isinstance(v, tuple) and str(v[lc[1]]).endswith("gbtrs") for v in td[0].values() if v != "raises")
         if r is None or not str(r[1]).endswith("gbtrs"):
             return False
     return True
